@@ -777,6 +777,58 @@ def name_key_probe(runner, out):
                           {"case": c.to_json(), "describe": c.describe(), "check": "aux-key:EXTNAME-shadows-KNOTSn", "corpus": f})
     runner.stats["name_key_probe_cases"] = n
 
+def size_boundary_probe(runner, out, rng, tier):
+    """round trips through the library alone (the model is not consulted: a million coefficients take it minutes) of tables whose
+    sizes sit on representational boundaries: coefficient counts 2^20 (and 2^20 +- one FITS block of floats in the thorough tier),
+    an image that fills whole 2880-byte blocks exactly, one float more, one float less; the property's own statement
+    read(write(t)) = t is the oracle, on disk and in memory"""
+    shapes = [[1024, 1024], [720], [721], [719], [36, 20], [1440, 3]]
+    if tier == "thorough":
+        shapes += [[2048, 512], [1024, 1024 + 1], [3, 1024, 1024], [4096, 256, 2]]
+    n = 0
+    for si, axes in enumerate(shapes):
+        nd = len(axes)
+        orders = [0 if a > 64 else min(2, a - 1) for a in axes]
+        knots = []
+        for a, o in zip(axes, orders):
+            x = rng.unit() * 4 - 2
+            ks = []
+            for i in range(a + o + 1):
+                ks.append(dbits(x)); x += 0.25 + rng.unit()
+            knots.append(ks)
+        ntot = 1
+        for a in axes:
+            ntot *= a
+        coefs = [(rng.next() & 0xffffffff) for _ in range(ntot)]
+        coefs = [c if (c & 0x7f800000) != 0x7f800000 else c & 0x807fffff for c in coefs]      # finite bit patterns (NaN never compares equal)
+        c = Case(orders, knots, coefs, None, None, [(b"SIZEKEY", b"boundary")])
+        c.offers, c.refused = list(c.aux), []
+        tag = "sz%d" % si
+        open(runner.p(tag + ".tbl"), "w").write("\n".join(c.lines(for_input="offers")) + "\n")
+        open(runner.p(tag + ".list"), "w").write("%s %s %s\n" % (tag, runner.p(tag + ".tbl"), runner.p(tag)))
+        pw = sh([runner.harness, "w", runner.p(tag + ".list")], timeout=1200)
+        st = ([l for l in pw.stdout.split("\n") if l.startswith(tag + " ")] or [""])[0]
+        want = c.lines(read_back=True)
+        runner.stats["comparisons"] += 2
+        n += 1
+        bad = None
+        if not st.endswith(" ok"):
+            bad = ("table", (st[len(tag):] + " " + pw.stderr[-200:])[:300], "the table read back")
+        for be in ("rtfile", "rtmem"):
+            d = first_diff(strip_periods(read_dump(runner.p("%s.%s" % (tag, be)))), want)
+            if d and not bad:
+                bad = (be + ":" + d[0], d[1], d[2])
+        if bad:
+            small = Case(orders, knots, coefs[:8], None, None, [])
+            out.violation("C06:roundtrip:size-boundary:%s" % bad[0].split(":")[-1],
+                          "read(write(t)) differs from t for a table with axes %s (%d coefficients = %d bytes of image data): %s: got %s, expected %s"
+                          % (axes, ntot, 4 * ntot, bad[0], bad[1][:120], bad[2][:120]),
+                          {"axes": axes, "orders": orders, "ncoefficients": ntot, "check": "size-boundary", "generator": "C06.size_boundary_probe shape %d seed-derived" % si})
+        for f in os.listdir(runner.work):
+            if f.startswith(tag + "."):
+                os.remove(os.path.join(runner.work, f))
+    runner.stats["size_boundary_tables"] = n
+
 def load_corpus():
     d = os.path.join(VERIF, "corpus", "C06")
     cases = []
@@ -821,6 +873,7 @@ def run(info, out):
         fails += r.execute(corpus)
     shipped_check(r, out, cov)
     name_key_probe(r, out)
+    size_boundary_probe(r, out, rng.fork("sizes"), tier)
     n = 300 if tier == "quick" else 3000
     cases = [("g%d" % i, gen_case(rng.fork("case%d" % i), tier)) for i in range(n)]
     if tier == "thorough":
